@@ -23,6 +23,14 @@ class C13(Prop):
     def cases(self, ctx):
         rng = ctx.rng
         while True:
+            if rng.random() < 0.1:
+                # HTML blocks under block options that change how their text is expanded: the policy still treats the block as one
+                # element (dropped whole, one sentinel, escaped whole)
+                opt = rng.choice(['.+specials', '.+spans', '.+specials +spans', '.-macros +specials', '.k1 +spans', '.+macros'])
+                blk = rng.choice(['<div>x *y* &z</div>', '<div>\n<p>a <b>b</b></p>\n</div>', '<!-- c *d* -->', '<hr>', '<p class="c">t & u</p>\n'])
+                src = '%s\n\n%s\n%s\n\n%s <i>%s</i>' % (plain(rng), opt, blk, plain(rng), plain(rng, 1, 1))
+                yield {'src': src, 'high': rng.choice([0, 8, 0, 8, 4])}
+                continue
             src = hostile_source(rng, ctx.repo) if rng.random() < 0.6 else clean(gen.any_source(rng, ctx.repo))
             if SENTINEL in src:
                 continue
@@ -88,6 +96,13 @@ class C14(Prop):
             'list), with definitions, pending Block Attributes and ids carried across; rendered in successive calls (options on the '
             'first call only) and as one document joined by blank lines; non-trivial = a later part uses a definition, id or '
             'pending attribute of an earlier one')
+
+    def corpus(self, ctx):
+        # thousands of line-macro expansions per part (each part below any plausible per-call budget, the whole above it)
+        n = 1900
+        a = "{big} = '# Title $1\n\npara $1\none\ntwo'\n\n" + '\n\n'.join('{big|%d}' % i for i in range(n))
+        b = '\n\n'.join('{big|%d}' % i for i in range(n, 2 * n))
+        return [{'parts': [a, b], 'safeMode': 0, 'htmlReplacement': None}]
 
     def cases(self, ctx):
         rng = ctx.rng
@@ -503,6 +518,12 @@ class C12(Prop):
                                      '""\n- i1\n- i2\n""', '<div class="a">\n<p class="b" style="c:d">x</p>\n</div>'])
                 yield {'merge': True, 'with': "{mm} = 'MM'\n\n" + line + '\n' + target + '\n\nnext *para*', 'safeMode': mode}
                 continue
+            if rng.random() < 0.08:
+                # a paragraph that begins like a Block Attributes line but is not one: it is text, and nothing of it is left pending
+                near = rng.choice(['.NET is great!', '.beta gamma: delta', '.note: b', '.x y z.', '.a-b c? d', '.k1 #i9 oops!'])
+                pre = rng.choice(['', '.c1\n', '.c1 c2\n'])
+                yield {'nearmiss': near, 'with': pre + near + '\n\nnext *para*', 'safeMode': mode}
+                continue
             if rng.random() < 0.25:
                 # block options: each alters the processing of the next block only (also when it merely repeats that block's
                 # default); `-specials` is refused in a non-zero safe mode and the options after it on the line still apply;
@@ -587,6 +608,16 @@ class C12(Prop):
     def execute(self, case, ctx, res):
         mode = case['safeMode']
         a, _, ok1 = run_session(ctx, [{'src': case['with'], 'safeMode': mode, 'reset': True, 'callback': True}], res, case)
+        if case.get('nearmiss'):
+            res.count('nearmiss_cases')
+            if a[0][0] == 'ok':
+                res.oracle_checks += 1
+                words = [w for w in re.findall(r'[A-Za-z][\w-]*', case['nearmiss']) if w not in ('c1', 'c2')]
+                leaked = [w for w in words if re.search(r'<[a-z][^<>]* (?:class|id)="[^"]*\b%s\b' % re.escape(w), a[0][1])]
+                if leaked or not a[0][1].endswith('<p>next <em>para</em></p>'):
+                    res.violation('words of a paragraph that only looks like a Block Attributes line were left pending as attributes',
+                                  case, short(a[0][1]))
+            return
         if case.get('merge'):
             # what the merged first tag looks like is left to the correspondence; that the attributes and options are used up by
             # that one block is the property: the paragraph after it renders as if they had never been there
@@ -922,7 +953,7 @@ class C17(Prop):
         return rng.choice(['*%s*' % w, '**%s**' % w, '_%s_' % w, '__%s__' % w, '`%s`' % w, '``%s``' % w, '~~%s~~' % w,
                            '[%s](%s)' % (w, u), '^[%s](%s)' % (w, u), '<%s|%s>' % (u, w), '<%s>' % u, u, '<joe@foo.com>', '<joe@foo.com|%s>' % w,
                            '<image:%s>' % u, '<image:%s|%s>' % (u, w), '![%s](%s)' % (w, u), '<b>', '</b>', '<!-- c -->', '&amp;', '&#169;', '<<#a1>>',
-                           '{m1}', '{m1|%s}' % w])
+                           '{m1}', '{m1|%s}' % w, '{m1?}', '{m1?%s}' % w, '{nosuch?%s}' % w, '{m1=.+}', '{m1!x}', '{--}', '{m1|}'])
 
     LINE_ELEMENTS = ['# Header', '== Header', '- item', '* item', '. item', '.. item', 'term:: def', '..', '.....', '""', '>>', '``', '--',
                      '// comment', '/*', '.cls', '.#id9 "color:red"', "{m9} = 'v'", "/teh/ = 'the'", "|code| = '+skip'", "~ = 'a|b'",
@@ -1162,6 +1193,14 @@ class C02(Prop):
                 body = ['{%s}' % rng.choice(names) for _ in range(rng.randint(1, 2))]
                 yield {'kind': 'macro', 'src': '\n'.join(defs) + '\n\n' + '\n\n'.join(body), 'safeMode': rng.choice([0, 0, 8, 9, 15]),
                        'must_finish': True}
+            elif k < 0.46:
+                # replacement definitions whose pattern can match the empty string (at the start, in the middle, at the very end of
+                # a fragment): fragmenting must stop or move on, whatever the pattern
+                pat = rng.choice(['x*', '\\b', '(?<=\\d),?', '(?=a)', 'a?', '^', '$', '(?<=a)x*', '(?<=\\d),?(?=\\d{3}\\b)', '\\B', '(?:)', 'b*?', '(?<!x)',
+                                  '(x?)'])
+                repl = rng.choice(["''", "'y'", "'|'", "'[$1]'", "'<i>$$1</i>'"])
+                text = rng.choice(['Population 1,000', 'ba', '(see note', 'aaa', 'xxa1,2', 'b', '1', 'a x,b 12,345', plain(rng)])
+                yield {'kind': 'macro', 'src': '/%s/ = %s\n%s' % (pat, repl, text), 'safeMode': 0, 'must_finish': True}
             elif k < 0.5:
                 names = ['m', 'n', 'k']
                 lines = []
